@@ -535,6 +535,28 @@ fn structural_mutants(h: &[u8], alg: Alg, fudge: u16, time: u64, out: &mut Vec<M
     out.push(Mutant { class: "resigned:by-k1-with-response-style-mac-chaining".into(), bytes: rt::sign(&unsigned, &k1, &k1n, time, fudge, Some(&t0.mac)) });
     out.push(Mutant { class: "resigned:by-k1-reference-signer(valid)".into(), bytes: rt::sign(&unsigned, &k1, &k1n, time, fudge, None) });
     out.push(Mutant { class: "resigned:by-k1-key-name-upper-case(valid)".into(), bytes: rt::sign(&unsigned, &k1, &k1n.iter().map(|l| l.to_ascii_uppercase()).collect(), time, fudge, None) });
+    // the holder of k1 announces ANOTHER algorithm than the one k1 is configured with and computes
+    // the MAC over exactly those variables with k1's own HMAC (full length, and cut / padded to the
+    // announced algorithm's output length): the key is identified by name AND algorithm
+    // (RFC 8945 5.2.1), so every one of these is BADKEY. (An edited algorithm name under the
+    // ORIGINAL MAC, above, fails the MAC comparison anyway and cannot tell the two rules apart.)
+    for a2 in [Alg::Sha256, Alg::Sha384, Alg::Sha512] {
+        if a2 == alg {
+            continue;
+        }
+        let mut shape = t0.clone();
+        shape.alg_name = a2.labels();
+        let full = rt::sign_shaped(&unsigned, &k1, &shape, None, false);
+        out.push(Mutant { class: format!("resigned:by-k1-own-hmac-announcing-{}", a2.name()), bytes: full.clone() });
+        if let Ok(sf) = rt::split(&full) {
+            let mut t = sf.tsig.clone();
+            t.mac.resize(a2.output_len(), 0);
+            out.push(Mutant { class: format!("resigned:by-k1-own-hmac-announcing-{}+mac-resized-to-announced-length", a2.name()), bytes: rt::attach(&unsigned, &t) });
+        }
+        let mut shape_uc = shape.clone();
+        shape_uc.alg_name = shape_uc.alg_name.iter().map(|l| l.to_ascii_uppercase()).collect();
+        out.push(Mutant { class: format!("resigned:by-k1-own-hmac-announcing-{}-upper-case", a2.name()), bytes: rt::sign_shaped(&unsigned, &k1, &shape_uc, None, false) });
+    }
     // other records in the additional section BEFORE the TSIG, covered by a recomputed MAC (valid)
     for (what, extra) in [("a-record", a_record_wire("n1.o.")), ("opt", vec![0, 0, 41, 0x04, 0xd0, 0, 0, 0, 0, 0, 0]), ("sig0", sig0_record_wire())] {
         let mut b = unsigned.clone();
